@@ -214,6 +214,22 @@ def main():
                 "differences(query, type, model, implementation)": diffs[:10], "implementation": ha[:800]})
         if i == 0:
             samples.append(src[:600])
+    # (d) `|x|` of arrays that are members of structures, elements of arrays, rows of nested arrays - reached by name, through
+    #     pointers, views, slice pointers and arrays of pointers (agggen.access_program: every program adds the lengths of its
+    #     inner arrays, however it reaches them, into one printed number that a Python oracle predicts)
+    import agggen
+    accs = [agggen.access_program(rng.fork("len%d" % i)) for i in range(1500 if thorough else 100)]
+    xh = runlib.impl_run([a[0] for a in accs])
+    for (src, want, tags), ans in zip(accs, xh):
+        v = runlib.impl_obs(ans)
+        total += 1
+        dist["member-lengths:" + tags[0]] += 1
+        if v[0] == "ok" and v[2] == want:
+            agreeing += 1
+        else:
+            rep.violation("member-lengths:%x" % hash_str(src), {
+                "why": "lengths and elements of inner arrays reached along access paths: expected the program to print %s, got %s" % (want, ans[:200]),
+                "source": src, "harness_request": "alpha\trun\tmain.pn\t" + esc(src), "oracle": "checks/agggen.py access_program"})
     report_broken_proof(rep)
     rep.coverage.update({
         "evaluations": total,
